@@ -10,12 +10,14 @@
      take limit U             0 -> [], negative -> U, k > 0 -> firstn k U
    Oracle hypotheses (Section variables of the proofs, explicit premises here):
      float_param_ok plo/phi   sqlite's float query parameter is within 1 us of the instant
-     sql_end_ok sql_end_ms    SQLite's julianday/strftime end instant is within 1 ms of ts+dur *)
+     sql_end_ok sql_end_ms    SQLite's julianday/strftime end instant is within 1 ms of ts+dur
+   The float-dependent statements (the code's binary64 expressions = this integer model; float_param_ok
+   discharged) are in Props/C03Float.v. *)
 From Coq Require Import Permutation Sorted.
 From AwVerif Require Import Base.Prelude Model.StoreBase Model.MemStore Model.SqliteStore
-  Model.PeeweeStore Model.PyFloat Model.Window Model.WindowFloat
+  Model.PeeweeStore Model.Window
   Proofs.WindowRound Proofs.WindowBase Proofs.WindowSpec Proofs.WindowMem Proofs.WindowSqlite
-  Proofs.WindowPeewee Proofs.WindowAll Proofs.WindowFloat.
+  Proofs.WindowPeewee Proofs.WindowAll.
 
 (* ------------------------------------------------------------------------- *)
 (* the rounding of Bucket.get *)
@@ -25,14 +27,6 @@ Theorem C03_round_closed : forall ws we,
   (option_map floor_ms ws, option_map (fun t => floor_ms t + 1000) we).
 Proof. exact bucket_get_round_closed. Qed.
 Print Assumptions C03_round_closed.
-
-(* the code's float expressions (binary64 division, int()) compute the integer model, for
-   every aware datetime (utc instant, utcoffset) *)
-Theorem C03_round_float : forall utc off,
-  round_start_f utc off = Ok (round_start_tz utc off) /\
-  round_end_f utc off = Ok (round_end_tz utc off).
-Proof. exact (fun utc off => conj (round_start_f_exact utc off) (round_end_f_exact utc off)). Qed.
-Print Assumptions C03_round_float.
 
 Theorem C03_round_whole_ms_offset : forall utc off, off mod 1000 = 0 ->
   round_start_tz utc off = round_start utc /\ round_end_tz utc off = round_end utc.
